@@ -6,6 +6,7 @@ CONSTANTS
   DiagCap = TRUE
   PathOnly = FALSE
   AbruptExit = FALSE
+  SpawnOnFull = FALSE
   StartMain = FALSE
   URIs <- OneUri
   Alphabet <- LifeAlphabet
